@@ -3,8 +3,10 @@ package stringlib
 import (
 	"errors"
 	"fmt"
+	"io"
 	"math"
 	"strconv"
+	"strings"
 	"unsafe"
 
 	"github.com/arnodel/golua/lib/base"
@@ -88,18 +90,13 @@ OuterLoop:
 					}
 					tmpMem += t.RequireBytes(10)
 					switch format[i] {
-					case 'u':
-						// Unsigned int
-						arg = uint64(n)
-						outFormat[i] = 'd' // No 'u' verb in Go
-					case 'i':
-						// Signed int
+					case 'b', 'U':
+						// Go verbs without a C counterpart, left to fmt
 						arg = int64(n)
-						outFormat[i] = 'd' // No 'i' verb in Go
-					case 'x', 'X':
-						arg = uint64(n) // Need to convert to unsigned
 					default:
-						arg = int64(n)
+						// C conversions: fmt parses the flags, width and
+						// precision, cInt.Format applies C's rules.
+						arg = cInt(n)
 					}
 					break ArgLoop
 				case 'a', 'A':
@@ -249,5 +246,79 @@ func quote(v rt.Value) (string, bool) {
 		return strconv.Quote(v.AsString()), true // An approximation
 	default:
 		return "", false
+	}
+}
+
+// cInt is the argument of the integer conversions %d %i %u %o %x %X.  Lua
+// defines these as C's printf does, and Go's fmt differs from it: %o and a
+// negative number gives a signed result, '#' puts "0x" in front of a zero and
+// does not count it in a zero-padded width, a zero printed with precision 0
+// loses its '+' or ' ' sign, "%#.0o" of zero is empty.  So fmt only parses the
+// conversion specification and the C rules are applied here.
+type cInt int64
+
+// Format implements fmt.Formatter.
+func (n cInt) Format(f fmt.State, verb rune) {
+	var (
+		u                    = uint64(n)
+		sign, prefix, digits string
+	)
+	switch verb {
+	case 'd', 'i':
+		switch {
+		case n < 0:
+			sign, u = "-", -u
+		case f.Flag('+'):
+			sign = "+"
+		case f.Flag(' '):
+			sign = " "
+		}
+		digits = strconv.FormatUint(u, 10)
+	case 'u':
+		digits = strconv.FormatUint(u, 10)
+	case 'o':
+		digits = strconv.FormatUint(u, 8)
+	case 'x':
+		digits = strconv.FormatUint(u, 16)
+	default: // 'X'
+		digits = strings.ToUpper(strconv.FormatUint(u, 16))
+	}
+	// The precision is the minimum number of digits; zero with precision 0
+	// has no digits at all.
+	prec, hasPrec := f.Precision()
+	if hasPrec && prec == 0 && n == 0 {
+		digits = ""
+	}
+	if hasPrec && len(digits) < prec {
+		digits = strings.Repeat("0", prec-len(digits)) + digits
+	}
+	if f.Flag('#') {
+		switch verb {
+		case 'o':
+			if !strings.HasPrefix(digits, "0") {
+				digits = "0" + digits
+			}
+		case 'x':
+			if n != 0 {
+				prefix = "0x"
+			}
+		case 'X':
+			if n != 0 {
+				prefix = "0X"
+			}
+		}
+	}
+	width, _ := f.Width()
+	pad := width - len(sign) - len(prefix) - len(digits)
+	if pad < 0 {
+		pad = 0
+	}
+	switch {
+	case f.Flag('-'):
+		io.WriteString(f, sign+prefix+digits+strings.Repeat(" ", pad))
+	case f.Flag('0') && !hasPrec:
+		io.WriteString(f, sign+prefix+strings.Repeat("0", pad)+digits)
+	default:
+		io.WriteString(f, strings.Repeat(" ", pad)+sign+prefix+digits)
 	}
 }
